@@ -27,7 +27,9 @@ def cases(draw, tier):
         case['n'] = n
         if 'weighted' in kind:
             wmax = draw(st.sampled_from([0, 1, 2, 3, 7]))
-            case['weights'] = [draw(st.integers(0, wmax)) for _ in range(n)]
+            # (weights are mostly small; now and then all of them sit beyond 256, each one an integer object of its own)
+            off = draw(st.sampled_from([0] * 6 + [250, 255, 256, 300, 1000]))
+            case['weights'] = [draw(st.integers(0, wmax)) + off for _ in range(n)]
         return case
     case['host'] = draw(arith.hosts(min_inputs=1, max_inputs=6 if big else 5, max_gates=10 if big else 7))
     case['host_route'] = draw(arith.gen.routes(case['host']))
@@ -51,7 +53,8 @@ def cases(draw, tier):
         case['ops'] = arith.operand_picks(draw, n, allow_repeat=True if repeat else True)
         if 'weighted' in kind:
             wmax = draw(st.sampled_from([0, 1, 2, 3, 7, 19]))
-            case['weights'] = [draw(st.integers(0, wmax)) for _ in range(n)]
+            off = draw(st.sampled_from([0] * 6 + [250, 255, 256, 300, 1000]))
+            case['weights'] = [draw(st.integers(0, wmax)) + off for _ in range(n)]
     return case
 
 
@@ -72,6 +75,8 @@ def check_sum(case):
     basis = arith.basis_arg(case['basis'])
     be = case['big_endian']
     cls = {kind, 'basis:' + basis_name + ('/str' if case['basis'][1] != 'enum' else '/enum'), 'be' if be else 'le'}
+    if max(case.get('weights') or [0]) > 256:
+        cls.add('weights>256')
     with UuidStream(case['uuid_seed']):
         if kind.startswith('gen_'):
             n = case['n']
@@ -79,10 +84,10 @@ def check_sum(case):
                 c = ar.generate_sum_n_bits(n, basis=basis, big_endian=be)
                 weights = [0] * n
             elif kind == 'gen_weighted_eff':
-                weights = case['weights']
+                weights = [int(str(w)) for w in case['weights']]  # every weight an object of its own
                 c = ar.generate_sum_weighted_bits_efficient(weights, basis=basis)
             else:
-                weights = case['weights']
+                weights = [int(str(w)) for w in case['weights']]  # every weight an object of its own
                 c = ar.generate_sum_weighted_bits_naive(weights, basis=basis)
             res = refsem.from_circuit(c)
             if len(res['inputs']) != n:
@@ -207,7 +212,7 @@ def check_sum(case):
             weights = [0] * n
             basis_name = 'XAIG'
         elif kind in ('add_weighted_eff', 'add_weighted_naive'):
-            weights = case['weights']
+            weights = [int(str(w)) for w in case['weights']]  # every weight an object of its own
             fn = ar.add_sum_n_weighted_bits if kind == 'add_weighted_eff' else ar.add_sum_n_weighted_bits_naive
             ret = fn(c, [(w, x) for w, x in zip(weights, ops)], basis=basis)
             pairs = [(lv, lab) for lv, lab in ret]
@@ -257,5 +262,5 @@ SPEC = {
     'subs': [Sub('sum', cases, arith.with_label_collisions(check_sum), {'quick': 1600, 'thorough': 125000})],
     'required_classes': {'sum': KINDS + ['basis:AIG/str', 'basis:AIG/enum', 'basis:XAIG/str', 'internal_operands',
                                          'repeated_operands', 'shift_vs_len:gt', 'shift_vs_len:eq', 'be', 'le',
-                                         'alias:live_list', 'alias:same_object']},
+                                         'alias:live_list', 'alias:same_object', 'weights>256']},
 }
